@@ -56,8 +56,8 @@ def fmt08X (v : Nat) : String :=
   let ds := hexDigitsAux 16 v []
   String.ofList (List.replicate (8 - ds.length) '0' ++ ds)
 
-/-- formatLSN: `high := uint32(lsn >> 32); low := uint32(lsn & 0xFFFFFFFF); Sprintf("%X/%X", high, low)` -/
-def formatLSN (lsn : Nat) : String :=
+/-- ctlFormatLSN: `high := uint32(lsn >> 32); low := uint32(lsn & 0xFFFFFFFF); Sprintf("%X/%X", high, low)` -/
+def ctlFormatLSN (lsn : Nat) : String :=
   fmtX ((lsn >>> 32) % 2 ^ 32) ++ "/" ++ fmtX ((lsn &&& 0xFFFFFFFF) % 2 ^ 32)
 
 /-- formatWALFilename (repaired): segments per xlogid = 2^32 / segSize; the two quotients are cast to uint32.
@@ -211,7 +211,7 @@ def parseControlFile (data : Bytes) : M (Option ControlFile) := do
     else pure (0, false) : M (Nat × Bool))
   return some
     { pgControlVersion, catalogVersionNo, systemIdentifier, state, stateString,
-      checkpointLSN := formatLSN checkpointLSN, redoLSN := formatLSN redoLSN, redoWALFile,
+      checkpointLSN := ctlFormatLSN checkpointLSN, redoLSN := ctlFormatLSN redoLSN, redoWALFile,
       timeLineID, prevTimeLineID, fullPageWrites, nextXIDEpoch, nextXID, nextOID, nextMulti, nextMultiOffset,
       oldestXID, oldestXIDDB, oldestActiveXID, oldestMulti, oldestMultiDB, oldestCommitTsXID, newestCommitTsXID,
       checkpointTime := cpTime, walLevel, walLogHints, maxConnections, maxWorkerProcesses, maxWALSenders,
